@@ -30,12 +30,16 @@ KE_RTOL = 1e-10
 RULE = ('objects pardim 1-3 (rational or not), orders 1..5, open bases with interior multiplicities 1..p, periodic bases of every '
         'continuity incl. the minimum sizes n = p-1-k .. ; insertion histories of 1-8 values (scalars and lists, several directions): '
         'new values, existing knots up to multiplicity p, periodic seam/end, values periods away, out-of-domain values (error class); '
-        'refine(n) / refine(n,direction) / refine(nu,nv,..); geometric/center/edge refine; single-basis insert_knot with its matrix. '
+        'refine(n) / refine(n,direction) / refine(nu,nv,..); geometric (forward and reverse=True) / center / edge refine on open and on '
+        'periodic directions with n >= p+k+1; single-basis insert_knot with its matrix. '
         'distinct = distinct protocol lines; non-trivial = at least one value is really inserted.')
 REQUIRED_TAGS = ['kind=basis', 'kind=history', 'kind=refine', 'kind=geometric', 'kind=center', 'kind=edge',
                  'periodic-dir', 'open-dir', 'existing-knot', 'to-mult-p', 'periodic-seam', 'periodic-end', 'periodic-outside',
                  'periodic-min-size', 'out-of-domain', 'list-insert', 'scalar-insert', 'multi-direction', 'rational',
-                 'pardim=1', 'pardim=2', 'pardim=3', 'refine=all', 'refine=one-dir', 'refine=per-dir', 'interior-mult>=2']
+                 'pardim=1', 'pardim=2', 'pardim=3', 'refine=all', 'refine=one-dir', 'refine=per-dir', 'interior-mult>=2',
+                 'geometric:reverse@periodic-dir', 'geometric:forward@periodic-dir', 'center@periodic-dir', 'edge@periodic-dir',
+                 'geometric:reverse@periodic-dir,pardim=1', 'geometric:reverse@periodic-dir,pardim=2',
+                 'geometric:reverse@periodic-dir,pardim=3']
 
 TOLF = 1e-10
 
@@ -310,6 +314,31 @@ def generate(rng, tier):
         if kind == 'geometric':
             rev = bool(rng.random() < 0.35 and o['bases'][d]['periodic'] < 0)
             specs.append({'kind': kind, 'obj': o, 'alpha': rng.choice([0.5, 0.75, 1.0, 1.25, 2.0, 0.9, 3.0]), 'n': n, 'dir': d, 'reverse': rev})
+        else:
+            S = rng.choice([0.5, 1.0, 1.25, 1.5]) if kind == 'center' else rng.choice([0.5, 1.0, 3.0, 10.0])
+            specs.append({'kind': kind, 'obj': o, 'S': S, 'n': n, 'dir': d})
+    # 5. graded utilities on PERIODIC directions that are large enough (n >= p+k+1, so the known
+    #    small-basis class is not involved): geometric_refine forward and reverse=True (reverse, insert,
+    #    reverse: the periodic reverse must roll the control net), center_refine, edge_refine;
+    #    curves and surface/volume directions, rational too, non-symmetric random control nets.
+    npg = 64 if quick else 800
+    for gi in range(npg):
+        pardim = [1, 2, 1, 3, 2][gi % 5]
+        o = _object(rng, pardim, periodic_prob=0.2, rational=bool(gi % 3 == 1))
+        d = rng.randrange(pardim)
+        p = rng.randint(2, 4 if pardim < 3 else 3)
+        k = rng.randint(0, p - 2)
+        b = gen.periodic_basis(rng, p, k, n_interior=2 * k + 2 + rng.randint(0, 2), max_mult=1 if rng.random() < 0.7 else p - 1)
+        o['bases'][d] = b
+        shape = [gen.basis_info(bb)['n'] for bb in o['bases']]
+        ncomp = np.array(o['cps']).shape[-1]
+        o['cps'] = gen.rand_cps(rng, shape, ncomp, o['rational'])
+        assert gen.basis_info(b)['n'] >= p + k + 1
+        kind = ['geometric', 'geometric', 'center', 'geometric', 'edge', 'geometric'][gi % 6]
+        n = rng.randint(1, 4)
+        if kind == 'geometric':
+            specs.append({'kind': kind, 'obj': o, 'alpha': rng.choice([0.5, 0.75, 1.0, 1.25, 2.0, 0.9, 3.0]), 'n': n, 'dir': d,
+                          'reverse': bool(gi % 6 != 1)})
         else:
             S = rng.choice([0.5, 1.0, 1.25, 1.5]) if kind == 'center' else rng.choice([0.5, 1.0, 3.0, 10.0])
             specs.append({'kind': kind, 'obj': o, 'S': S, 'n': n, 'dir': d})
@@ -808,8 +837,16 @@ def tags(s, res):
                 out.append('refine=one-dir')
             else:
                 out.append('refine=per-dir')
-        elif k == 'geometric' and s['reverse']:
-            out.append('geometric-reverse')
+        else:
+            if k == 'geometric' and s['reverse']:
+                out.append('geometric-reverse')
+            d = s['dir']
+            if d < pd and s['n'] > 0:
+                t = Track(o['bases'][d])
+                if t.k >= 0 and t.n >= t.p + t.k + 1:
+                    what = ('geometric:reverse' if s['reverse'] else 'geometric:forward') if k == 'geometric' else k
+                    out.append(what + '@periodic-dir')
+                    out.append(what + '@periodic-dir,pardim=%d' % pd)
     if isinstance(res.get('impl'), Err):
         out.append('raises=' + res['impl'].kind)
     out = list(dict.fromkeys(out))
